@@ -38,34 +38,41 @@ def run_history(h):
                 if any(s[0] is cm for s in stack):
                     continue  # re-entering the same Callback object overwrites its _cm: not a nesting of contexts
                 cm.__enter__()
-                stack.append((cm, at, {objs[o]._callback}))
+                stack.append((cm, at, {objs[o]._callback}, set(at)))
             elif op == "enter_add":
                 at = set(Callback.active)
                 cm = add_callbacks(objs[o])
                 cm.__enter__()
-                stack.append((cm, at, {objs[o]._callback}))
+                stack.append((cm, at, {objs[o]._callback}, set(at)))
             elif op == "enter_add2":
                 at = set(Callback.active)
                 cm = add_callbacks(objs[0], objs[1])
                 cm.__enter__()
-                stack.append((cm, at, {objs[0]._callback, objs[1]._callback}))
+                stack.append((cm, at, {objs[0]._callback, objs[1]._callback}, set(at)))
             elif op == "register":
+                was_active = objs[o]._callback in Callback.active
                 objs[o].register()
+                if not was_active:
+                    for s_ in stack:
+                        s_[3].add(objs[o]._callback)  # this register() activated it: must survive the exit of every open context
             elif op == "unregister":
                 if objs[o]._callback not in Callback.active:
                     continue
                 objs[o].unregister()
                 for s in stack:
                     s[1].discard(objs[o]._callback)
+                    s[3].discard(objs[o]._callback)
             elif op == "exit":
                 if not stack:
                     continue
-                cm, at, own = stack.pop()
+                cm, at, own, at0 = stack.pop()
                 before = set(Callback.active)
                 cm.__exit__(None, None, None)
-                lost = (before & at) - set(Callback.active)
-                if lost:
-                    return f"leaving a context deactivated {len(lost)} callback(s) that were active when it was entered"
+                removed = before - set(Callback.active)
+                # only what this context activated itself may disappear: not what an enclosing context activated
+                # (active at entry) and not what a register() activated meanwhile
+                if not removed <= (own - at0):
+                    return f"leaving a context deactivated {len(removed - (own - at0))} callback(s) it had not activated itself (enclosing context or earlier register())"
                 if not set(Callback.active) <= before:
                     return "leaving a context activated callbacks"
             elif op == "get":
@@ -79,8 +86,7 @@ def run_history(h):
                     want = 1 if objs[i]._callback in act else 0
                     if len(seen[i]) != want:
                         return f"callback {i} saw {len(seen[i])} pretask calls, expected {want}"
-            for cm, at, own in stack:
-                pass
+
     finally:
         Callback.active = set()
     return None
